@@ -371,9 +371,8 @@ class BuiltinsMixin:
                 if len(args) > 1:
                     return args[1]
                 self.raise_new('StopIteration')
-            v = smt.simp(s[pos])
+            v = self.elem(s, pos)
             self.set_attr_raw(it, '$pos', smt.simp(Val.int(pos + 1)))
-            self.bound_ref(v)
             return v
         h = getattr(self, 'gen_next_hook', None)
         if h is not None:
